@@ -248,11 +248,12 @@ impl ConcreteReadableShape for Multipatch {
         if !m_is_used && !m_is_not_used {
             Err(Error::InvalidShapeRecordSize)
         } else {
-            let mut patch_types = vec![PatchType::Ring; reader.num_parts as usize];
-            let mut patches = Vec::<Patch>::with_capacity(reader.num_parts as usize);
-            for i in 0..reader.num_parts {
-                patch_types[i as usize] = PatchType::read_from(reader.source)?;
+            let num_parts = reader.num_parts as usize;
+            let mut patch_types = Vec::with_capacity(num_parts.min(MAX_PREALLOCATED_ITEMS));
+            for _ in 0..num_parts {
+                patch_types.push(PatchType::read_from(reader.source)?);
             }
+            let mut patches = Vec::<Patch>::with_capacity(patch_types.len());
             let (bbox, patches_points) = reader
                 .read_xy()
                 .and_then(|rdr| rdr.read_zs())
